@@ -2099,6 +2099,14 @@ func genCases(c *vf.Ctx) (plain, race []caseRec) {
 			plain = append(plain, coldstart(cf))
 		}
 	}
+	// the start-up window is a few dozen nanoseconds wide: many more rounds with the cheap configurations
+	for rep := c.Pick(40, 400); rep > 0; rep-- {
+		for _, cf := range cfgs {
+			if cf.ns <= int64(time.Millisecond) && cf.b <= 5 && cf.q <= 2 {
+				plain = append(plain, coldstart(cf))
+			}
+		}
+	}
 	multi := func() caseRec {
 		cs := mk("multi", cfgs[rng.Intn(len(cfgs))])
 		n := 2 + rng.Intn(2)
@@ -2425,8 +2433,8 @@ func run(c *vf.Ctx) {
 	c.Require("runs_mextreme", c.Pick(50, 700))
 	c.Require("flushk_rounds", c.Pick(250, 3800))
 	c.Require("flushk_total=k*b+0", c.Pick(50, 800))
-	c.Require("coldstart_rounds", c.Pick(800, 9000))
-	c.Require("coldstart_rounds_with_overlap", par(c.Pick(300, 3000)))
+	c.Require("coldstart_rounds", c.Pick(2000, 20000))
+	c.Require("coldstart_rounds_with_overlap", par(c.Pick(800, 8000)))
 	c.Require("writer_probes_seen", par(c.Pick(3000, 40000))) // blindness self-check: the rules did identify writer goroutines
 	for _, t := range timeouts {
 		c.Require("runs_gated_timeout="+t.String(), c.Pick(250, 3500))
